@@ -32,6 +32,10 @@ type c02Plan struct {
 	foreignTo bool
 	// the server the client connects to is not the domain of its own address (a gateway, a hosted domain)
 	gateway bool
+	// the caller gives up: 1 the context has ended before the call, 2 it ends when the peer's answer to <starttls/> is on
+	// its way, 3 after a drawn number of steps; plainT: on a transport without deadlines (nothing interrupts its I/O)
+	cancelMode, cancelSteps int
+	plainT                  bool
 }
 
 var c02Lists = []string{"starttls-required", "starttls-optional", "starttls-absent-sasl-offered", "empty", "starttls-among-others", "unknown-only", "bind-and-sasl-only", "starttls-and-secure-only-voluntary"}
@@ -89,8 +93,36 @@ func c02Session(rc *RC, idx int, tag string, origin jid.JID, neg *c02Neg, plan c
 	if plan.gateway {
 		location = jid.MustParse("gw." + origin.Domain().String())
 	}
+	var crw io.ReadWriter = cc
+	if plan.plainT {
+		crw = plainRW{&trackConn{Conn: cc}}
+	}
+	switch plan.cancelMode {
+	case 1:
+		cancel()
+		rc.Fire("cancel-before-start")
+	case 2, 3:
+		t := rc.Spawn("canceller"+tag, func() {
+			start := rc.S.Steps
+			simrt.WaitUntil("cancel", func() bool {
+				if o.done {
+					return true
+				}
+				if plan.cancelMode == 2 {
+					tp := sc.Out().Tap
+					return bytes.Contains(tp, []byte("<proceed")) || bytes.Contains(tp, []byte("<failure")) || bytes.Count(tp, []byte("<stream:features")) > 1
+				}
+				return rc.S.Steps-start >= plan.cancelSteps
+			})
+			if !o.done {
+				rc.Fire("cancel")
+				simrt.Settle(cancel, "h:cancel")
+			}
+		})
+		t.Daemon = true
+	}
 	sut := rc.Spawn("client"+tag, func() {
-		sess, o.err = xmpp.NewSession(ctx, location, origin, cc, 0, neg.neg)
+		sess, o.err = xmpp.NewSession(ctx, location, origin, crw, 0, neg.neg)
 		o.done, o.finishedAt = true, rc.S.Now()
 	})
 	out := cc.Out()
@@ -307,10 +339,15 @@ func runC02(rc *RC) {
 		}
 		origin := jid.MustParse("me@" + dom + "/r")
 		plan := c02Plan{list: ch.Int("script", len(c02Lists)), answer: ch.Int("script", len(c02Answers)), foreignTo: ch.Chance("script", 1, 5), gateway: useNil && ch.Chance("script", 1, 5)}
+		if ch.Chance("faults", 1, 5) {
+			plan.cancelMode = 1 + ch.Int("faults", 3)
+			plan.cancelSteps = ch.Range("faults", 1, 200)
+			plan.plainT = plan.cancelMode != 1 && ch.Chance("faults", 1, 2)
+		}
 		if f := os.Getenv("C02_FORCE"); f != "" {
 			fmt.Sscanf(f, "%d,%d", &plan.list, &plan.answer)
 		}
-		rc.Describe("session %d origin=%s list=%s answer=%s foreign-to=%v gateway=%v", i, origin, c02Lists[plan.list], c02Answers[plan.answer], plan.foreignTo, plan.gateway)
+		rc.Describe("session %d origin=%s list=%s answer=%s foreign-to=%v gateway=%v cancel=%d/%d plain=%v", i, origin, c02Lists[plan.list], c02Answers[plan.answer], plan.foreignTo, plan.gateway, plan.cancelMode, plan.cancelSteps, plan.plainT)
 		rc.CaseKey += fmt.Sprint(useNil, plan)
 		off := c02Session(rc, i, "a", origin, negOff, plan, false, cert)
 		on := c02Session(rc, i, "b", origin, negOn, plan, true, cert)
@@ -320,12 +357,16 @@ func runC02(rc *RC) {
 			sig := c02Lists[plan.list] + "/" + c02Answers[plan.answer] + "/" + teeS
 			// c1: nothing but the header and the STARTTLS request leaves in clear
 			rc.Evals["C02.c1"]++
-			if !c02ClearRe.Match(o.clearOut) {
+			if plan.cancelMode > 0 && len(bytes.TrimSpace(o.clearOut)) == 0 {
+				// the caller gave up before anything was written
+			} else if !c02ClearRe.Match(o.clearOut) {
 				rc.Failf("C02.c1", "cleartext-beyond-starttls:"+sig, "client wrote in clear text: %q", clip(string(o.clearOut), 400))
 			}
 			// c2: error, or a TLS-protected stream
 			rc.Evals["C02.c2"]++
-			if !o.done {
+			if !o.done && plan.plainT {
+				// nothing can interrupt a read on a transport without deadlines: not a hang of the library's making
+			} else if !o.done {
 				rc.Failf("C02.c2", "client-hangs:"+sig, "client did not return within its context's deadline; stuck %v", rc.S.Stuck())
 			} else if o.err == nil || o.state&xmpp.Ready != 0 {
 				if o.state&xmpp.Secure == 0 || !o.handshake {
@@ -353,10 +394,13 @@ func runC02(rc *RC) {
 		// c5: the tee changes nothing
 		rc.Evals["C02.c5"]++
 		norm := func(b []byte) string { return regexp.MustCompile(`id='[^']*'`).ReplaceAllString(string(b), "id=''") }
-		if norm(off.clearOut) != norm(on.clearOut) {
+		if plan.cancelMode > 0 {
+		} else if norm(off.clearOut) != norm(on.clearOut) {
 			rc.Failf("C02.c5", "tee-changes-cleartext:"+c02Lists[plan.list]+"/"+c02Answers[plan.answer], "clear-text bytes differ: tee off %q, tee on %q", clip(string(off.clearOut), 300), clip(string(on.clearOut), 300))
 		}
-		if (off.err == nil) != (on.err == nil) || off.state != on.state {
+		if plan.cancelMode > 0 {
+			// a cancellation (whether the header still gets out before the deadline helper acts is a matter of scheduling; one placed by step count or by the peer's progress lands at different points of the two executions)
+		} else if (off.err == nil) != (on.err == nil) || off.state != on.state {
 			rc.Failf("C02.c5", "tee-changes-outcome:"+c02Lists[plan.list]+"/"+c02Answers[plan.answer], "outcome differs: tee off err=%v state=%v, tee on err=%v state=%v", off.err, off.state, on.err, on.state)
 		}
 		if on.done && on.err == nil && len(on.tlsInside) > 0 {
